@@ -397,12 +397,29 @@ impl Check {
     pub fn thorough(&self) -> bool {
         self.tier == Tier::Thorough
     }
-    /// Fixed work per tier.
+    /// Fixed work per tier. The thorough figure is multiplied by a per-property depth factor
+    /// (chosen so that a thorough run takes roughly ten minutes on 16 cores; VERIF_THOROUGH_SCALE
+    /// overrides it) - still a fixed amount of work, never a time budget.
     pub fn n(&self, quick: u64, thorough: u64) -> u64 {
         if self.thorough() {
-            thorough
+            thorough.saturating_mul(self.thorough_scale())
         } else {
             quick
+        }
+    }
+    pub fn thorough_scale(&self) -> u64 {
+        if let Some(x) = std::env::var("VERIF_THOROUGH_SCALE").ok().and_then(|s| s.parse::<u64>().ok()) {
+            return x.max(1);
+        }
+        match self.id.as_str() {
+            "C08" | "C09" => 12,
+            "C20" => 10,
+            "C05" => 6,
+            "C03" | "C14" => 5,
+            "C01" | "C02" | "C13" | "C16" | "C18" | "C19" => 4,
+            "C04" | "C07" | "C10" | "C11" => 3,
+            "C15" => 2,
+            _ => 1,
         }
     }
     pub fn rule(&mut self, s: &str) {
@@ -781,6 +798,9 @@ impl Check {
             coverage.insert("regression_replays_run".into(), json!(self.regressions_run));
             coverage.insert("generator_health_failures".into(), json!(self.health));
             coverage.insert("infrastructure_errors".into(), json!(self.infra_errors));
+            if self.thorough() {
+                coverage.insert("thorough_depth_factor".into(), json!(self.thorough_scale()));
+            }
             for (k, v) in &self.extra {
                 coverage.insert(k.clone(), v.clone());
             }
